@@ -6,7 +6,9 @@ from ..runner import canon
 
 MODULE = "Props.C13"
 THEOREMS = ["C13_push_returns_own_value", "C13_push_index_fresh", "C13_pushes_keep_earlier", "C13_push_conserves",
-            "C13_push_mut_releases_earlier", "C13_drop_releases_all", "C13_concurrent_pushes",
+            "C13_push_mut_releases_earlier", "C13_drop_releases_all", "C13_only_make_mut_releases",
+            "C13_make_mut_releases_own_chain_only", "C13_helper_values_never_released", "C13_held_references_point_at_live_values",
+            "C13_concurrent_pushes",
             "C13_concurrent_append_only", "C13_nonvacuous"]
 
 RULE = ("(sequential) sessions on an original, its clone and a clone of the clone: random sequences of make_ref / make_mut / lending through the "
